@@ -385,3 +385,8 @@ contract('bitarray_.BitArray.replace', shapes=[sh for sh in _replace_shapes() if
                              "aligned only when asked), at most count, are replaced by new; returns how many  (BOUNDED)")(_replace_spec(False))
 contract('bitstream.BitStream.replace', shapes=[sh for sh in _replace_shapes() if sh.name.startswith('BitStream')], props={'C07', 'C03', 'C06'},
          kind='public', note="as BitArray.replace; pos is reset to 0 iff the length changed  (BOUNDED)")(_replace_spec(True))
+
+
+from pyvc.contract import REGISTRY as _R
+for _q in ('bits.Bits.findall', 'bits.Bits.split', 'bits.Bits.cut'):
+    _R[_q].inline = True        # generator contracts are not substituted at call sites
